@@ -25,6 +25,11 @@ CHECKS = {
     'C14': {'engine': 'optsim',
             'quick': {'runs': 2500, 'max_vars': 4, 'max_hist': 6},
             'thorough': {'runs': 25000, 'max_vars': 5, 'max_hist': 9}},
+    'C15': {'engine': 'tolsim',
+            'quick': {'runs': 1500, 'max_pert': 4, 'max_steps': 3,
+                      'max_n': 4},
+            'thorough': {'runs': 25000, 'max_pert': 5, 'max_steps': 5,
+                         'max_n': 8}},
 }
 
 
